@@ -115,6 +115,24 @@ def gen_case(rng, kind='valid'):
         # the settings in force when a Raman span is designed: never the defaults
         case['simparams'] = gen_simparams(rng)
         case['simparams']['raman_params']['order'] = rng.choice([1, 3, 4])
+    if kind == 'gain_in_voa':
+        # gain mode, input VOAs on amplifiers whose gain is auto-designed, total powers close to p_max downstream
+        sp['power_mode'] = False
+        case['si'].update({'power_dbm': rng.choice([1, 2, 2.5]), 'f_min': 191.275e12, 'f_max': 196.125e12})
+        for ln in case['lines']:
+            amps = [e for e in ln['els'] if e['k'] == 'A']
+            if not amps:
+                ln['els'].append(c08.gen_amp(rng, f'amp iv {ln["src"][-1]}{ln["dst"][-1]}', False))
+                ln['els'].append(c08.gen_fiber(rng, f'fiber iv {ln["src"][-1]}{ln["dst"][-1]}', c08.max_km(sp), allow_lumped=False))
+                amps = [ln['els'][-2]]
+            for i, a in enumerate(amps):
+                op = a.setdefault('op', {})
+                if i % 2 == 0:
+                    op['in_voa'] = rng.choice([0.5, 1, 2])
+                    op.pop('gain_target', None)
+                    a['variety'] = rng.choice(['std_medium_gain', 'std_low_gain', ''])
+                else:
+                    a['variety'] = rng.choice(['std_high_gain', 'std_fixed_gain', 'std_medium_gain'])
     if kind == 'zero_gain':
         # gain mode with a by-pass amplifier (gain exactly 0 dB)
         sp['power_mode'] = False
@@ -177,9 +195,37 @@ def fix_f22():
 # the 'lumped' stream and the multiband example stay as regressions that must pass.
 # F15 / F23 (Raman estimate without span power: TypeError, then cached at the wrong power) were repaired as well
 # (36fd5b85, d3e2700d).
+@contextlib.contextmanager
+def fix_gm_in_voa():
+    """gain-mode saturation test of an imposed variety made behind the input VOA: pout - in_voa against p_max (the open C09
+    finding F-gain-mode-in-voa).  set_one_amplifier reads p_max from equipment['Edfa'][variety] for that test only, so
+    the repair is applied by handing it a p_max raised by the amplifier's in_voa."""
+    import gnpy.core.network as N
+    orig = N.set_one_amplifier
+
+    def set_one_amplifier(node, *args, **kw):
+        args = list(args)
+        power_mode, equipment = args[2], args[9]
+        iv = node.in_voa if node.in_voa else 0
+        v = node.params.type_variety
+        if not power_mode and iv and v and v in equipment['Edfa']:
+            eq2 = dict(equipment)
+            eq2['Edfa'] = dict(equipment['Edfa'])
+            amp = copy.copy(equipment['Edfa'][v])
+            amp.p_max = amp.p_max + iv
+            eq2['Edfa'][v] = amp
+            args[9] = eq2
+        return orig(node, *args, **kw)
+    N.set_one_amplifier = set_one_amplifier
+    try:
+        yield
+    finally:
+        N.set_one_amplifier = orig
+
+
 # F24 (Multiband_amplifier.to_json dropped in_voa of its band amplifiers) was repaired too (71cdcae5): the generated
 # multiband stream with in_voa on band amplifiers stays as a regression without matcher.
-FIX_CTX = {'F22': fix_f22}
+FIX_CTX = {'F22': fix_f22, 'GMIV': fix_gm_in_voa}
 
 
 # ------------------------------------------------------------------ driving the implementation
@@ -256,6 +302,51 @@ def export_unfaithful(net, j):
     return bad
 
 
+def fibre_values(net):
+    """the parameters of every fibre as the network holds them (what propagation will use)"""
+    from gnpy.core import elements as E
+    out = {}
+    for n in net.nodes():
+        if isinstance(n, E.Fiber):
+            p = n.params
+
+            def num(x):
+                try:
+                    return float(x)
+                except TypeError:
+                    return [float(v) for v in x]
+            out[n.uid] = {'type': type(n).__name__, 'length': float(p.length), 'loss_coef': num(p.loss_coef),
+                          'att_in': c08.fnum(p.att_in), 'con_in': c08.fnum(p.con_in), 'con_out': c08.fnum(p.con_out),
+                          'pmd_coef': float(p.pmd_coef), 'dispersion': num(p.dispersion), 'gamma': float(p.gamma),
+                          'effective_area': float(p._effective_area),
+                          'lumped': [[float(x['position']), float(x['loss'])] for x in p.lumped_losses]}
+    return out
+
+
+def reload_unfaithful(designed, loaded):
+    """designed network vs the network loaded from its export, fibre by fibre: every parameter, exported or not,
+    must come back (length / loss_coef to the 6 decimals of the export in km, dB/km; the rest exactly)"""
+    bad = []
+    for uid, d in designed.items():
+        q = loaded.get(uid)
+        if q is None:
+            bad.append(f'{uid}: not in the reloaded network')
+            continue
+        for k, v in d.items():
+            w = q[k]
+            if k == 'length':
+                ok = abs(v - w) <= 0.5e-3 + 1e-9
+            elif k == 'loss_coef' and not isinstance(v, list):
+                ok = abs(v - w) <= 0.5e-9 + 1e-15
+            elif isinstance(v, float) and isinstance(w, float):
+                ok = abs(v - w) <= 1e-12 * max(abs(v), abs(w), 1e-30)
+            else:
+                ok = v == w
+            if not ok:
+                bad.append(f'{uid} {k}: designed {v} but reloaded {w}')
+    return bad
+
+
 def roundtrip(case, fixes=(), rounds=None, want_obs=False, propagate_pair=None):
     """design, then `rounds` times export / reload / redesign, with the given counterfactual fixes patched in.
     Returns dict(json=[j1, j2, ...], obs=[...], exc=...)"""
@@ -282,6 +373,8 @@ def roundtrip(case, fixes=(), rounds=None, want_obs=False, propagate_pair=None):
             eq = eq1 if k == 0 else eq2
             try:
                 net = network_from_json(copy.deepcopy(cur), eq)
+                if k > 0:
+                    res['unfaithful'] += [f'round {k - 1}: {x}' for x in reload_unfaithful(designed_fibres, fibre_values(net))]
                 ob = {}
                 if want_obs:
                     ob['before'], ob['problems'] = c08.extract_lines(net)
@@ -304,6 +397,7 @@ def roundtrip(case, fixes=(), rounds=None, want_obs=False, propagate_pair=None):
                                 if not isinstance(s, E.Transceiver):
                                     ob['targets'][(n.uid, s.uid)] = float(n.get_per_degree_ref_power(degree=s.uid))
                 cur = network_to_json(net)      # export first: propagation may clamp effective_gain (finding F6)
+                designed_fibres = fibre_values(net)
                 res['unfaithful'] += [f'round {k}: {x}' for x in export_unfaithful(net, cur)]
                 if propagate_pair:
                     from gnpy.topology.request import compute_constrained_path, propagate
@@ -320,6 +414,14 @@ def roundtrip(case, fixes=(), rounds=None, want_obs=False, propagate_pair=None):
                 return res
             res['json'].append(cur)
             res['obs'].append(ob)
+        # the last export is reloaded too (fibre parameters as the reload assumes them)
+        try:
+            res['unfaithful'] += [f'round {rounds}: {x}' for x in
+                                  reload_unfaithful(designed_fibres, fibre_values(network_from_json(copy.deepcopy(cur), eq2)))]
+        except Exception as e:
+            res['exc'] = f'round {rounds + 1}: {type(e).__name__}: {e}'
+            res['exc_type'] = type(e).__name__
+            res['exc_round'] = rounds + 1
     return res
 
 
@@ -419,6 +521,9 @@ def attribute(case, pair):
     cands = ['F7'] if case['span'].get('EOL') else []
     if any(e['k'] == 'R' for ln in case.get('lines', []) for e in ln['els']):
         cands.append('F22')
+    if not case['span'].get('power_mode', True) and any(e.get('op', {}).get('in_voa') for ln in case.get('lines', []) for e in ln['els']
+                                                        if e['k'] == 'A'):
+        cands.append('GMIV')
     for size in (1, 2):
         for sub in itertools.combinations(cands, size):
             r = roundtrip(case, fixes=sub, propagate_pair=pair)
@@ -635,6 +740,7 @@ def mk_matcher(cause):
 MATCHERS = {
     'F7-eol-readded': mk_matcher('F7'),
     'F22-raman-estimate-ignores-out-voa': mk_matcher('F22'),
+    'F-gain-mode-in-voa': mk_matcher('GMIV'),
 }
 
 
@@ -671,7 +777,7 @@ def run(ctx):
         # the Raman flag makes design estimate SRS tilts (slow): one such case in the quick tier, half of them in thorough
         cases += [gen_multiband_case(rng, raman=(k == 0) if not ctx.thorough else None) for k in range(ctx.scale(3, 30))]
         for kind, n in (('eol', ctx.scale(3, 40)), ('lumped', ctx.scale(3, 40)), ('att_in', ctx.scale(3, 40)),
-                        ('voa_margin', ctx.scale(4, 60)), ('raman', ctx.scale(3, 40)), ('zero_gain', ctx.scale(3, 40))):
+                        ('voa_margin', ctx.scale(4, 60)), ('raman', ctx.scale(3, 40)), ('zero_gain', ctx.scale(3, 40)), ('gain_in_voa', ctx.scale(4, 40))):
             cases += [gen_case(rng, kind) for _ in range(n)]
     terms, meta, replay_sims = [], [], []
     import time
